@@ -185,3 +185,23 @@ def renderer_contracts():
     for name, tag in (('loose', 'bool'),):
         cs.append(Equiv('core._is_spec', 'ref_extra.is_spec_ref', args={'obj': 'ref', 'strict': 'bool'}))
     return cs
+
+
+def bbrepr_facts():
+    """NativeFacts about the shared repr helper (module initialisation state): every size / depth limit that reprlib applies is raised to 1024,
+    so reprs of literals (long ints, deep or wide containers) are complete -- an eval-able repr (C18) and an untruncated trace value below
+    the trace width (C05) both rest on it; plus the quote handling of bbrepr vs the {!r} conversion of bbformat"""
+    def limits(f):
+        import glom.core as gc, reprlib
+        r = gc._BBRepr()
+        names = [n for n, v in vars(reprlib.Repr()).items() if isinstance(v, int) and not isinstance(v, bool)]
+        return all(getattr(r, n) == 1024 for n in names) and len(names) >= 8
+    def probes(f):
+        import glom.core as gc
+        deep = [[[[[[[[1]]]]]]]]
+        return (gc.bbrepr(2 ** 200) == repr(2 ** 200) and gc.bbrepr(deep) == repr(deep) and gc.bbrepr(list(range(300))) == repr(list(range(300)))
+                and gc.bbrepr('it\'s a "key"') == repr('it\'s a "key"') and gc.bbrepr({'k' * 50: 'v' * 500}) == repr({'k' * 50: 'v' * 500}))
+    return NativeFacts('bbrepr.complete', [
+        ('limits', 'every integer limit of reprlib.Repr is 1024 on glom\'s repr helper', limits),
+        ('probes', 'bbrepr equals repr on long ints, 8-deep lists, 300-element lists, strings with both quote kinds, long dict entries', probes),
+    ], func='core._BBRepr.__init__ / bbrepr')
